@@ -139,6 +139,13 @@ func PKI() map[string]*Identity {
 		// TLS server
 		pki["server"] = MakeCert("relic.sim", newKey("ec"), nil, Epoch, farFuture, false, []x509.ExtKeyUsage{x509.ExtKeyUsageServerAuth},
 			"relic.sim", "dir.sim", "s0.sim", "s1.sim", "s2.sim", "s3.sim")
+		// certificates around the key of a CA-issued client that its CA did
+		// not vouch for (or no longer does): self-signed, issued by another CA,
+		// and an earlier certificate of the same key that has lapsed
+		ak := pki["ca-1-client-a"].Key
+		pki["ca-1-client-a-self"] = MakeCert("ca-1-client-a", ak, nil, Epoch, farFuture, false, cl)
+		pki["ca-1-client-a-otherca"] = MakeCert("ca-1-client-a", ak, pki["ca-2"], Epoch, farFuture, false, cl)
+		pki["ca-1-client-a-lapsed"] = MakeCert("ca-1-client-a", ak, pki["ca-1"], Epoch, Epoch.AddDate(0, 6, 0), false, cl)
 	})
 	return pki
 }
